@@ -37,7 +37,7 @@ RULES = {
     "C30": [("sa.rules.c13", "r_C13eval"), ("sa.rules.b3", "r_C28b_C33b_C30bc"), ("sa.rules.c29", "r_cli2"), ("sa.rules.c26", "r_C26eval"), ("sa.rules.c26", "r_C26state"), ("sa.rules.b1", "r_C33a")],
     "C31": [("sa.rules.b4", "r_ledger"), ("sa.rules.c14", "r_ledger2"), ("sa.rules.c29", "r_export2"), ("sa.rules.c29", "r_C31d_C29f")],
     "C32": [("sa.rules.c32", "r_C32"), ("sa.rules.c32", "r_C32c"), ("sa.rules.c32", "r_C32de"), ("sa.rules.c01e", "r_C01visitors"), ("sa.rules.cpn", "r_processnode")],
-    "C33": [("sa.rules.b1", "r_C33a"), ("sa.rules.b7", "r_origin"), ("sa.rules.c13", "r_C13eval"), ("sa.rules.b3", "r_C28b_C33b_C30bc"), ("sa.rules.c29", "r_C33c_C34g"), ("sa.rules.cmisc", "r_C06bcd"), ("sa.rules.cpn", "r_processnode"), ("sa.rules.cdrv", "r_driver")],
+    "C33": [("sa.rules.b1", "r_C33a"), ("sa.rules.b7", "r_origin"), ("sa.rules.c13", "r_C13eval"), ("sa.rules.b3", "r_C28b_C33b_C30bc"), ("sa.rules.c29", "r_C33c_C34g"), ("sa.rules.cmisc", "r_C06bcd"), ("sa.rules.cpn", "r_processnode"), ("sa.rules.cdrv", "r_driver"), ("sa.rules.cres", "r_resolver")],
     "C34": [("sa.rules.b3", "r_C08_C34"), ("sa.rules.cmisc", "r_C13d_C34f_C09d"), ("sa.rules.c29", "r_C33c_C34g"), ("sa.rules.cmisc", "r_C06bcd"), ("sa.rules.c25", "r_who_writes"), ("sa.rules.c05", "r_C05cde"), ("sa.rules.cres", "r_resolver"), ("sa.rules.cpn", "r_processnode"), ("sa.rules.cdrv", "r_driver")],
 }
 
@@ -68,7 +68,7 @@ ALSO = {
     # the CLI prints file:line:col of the error it gets
     "C30": {"C33": ("C33.b", "C33.a",)},
     # error locations of list references come from the element positions (C08.e); line/col arithmetic (C06.d)
-    "C28": {"C08": ("C08.e"), "C06": ("C06.c", "C06.d"), "C07": ("C07.e",)},
+    "C28": {"C08": ("C08.e"), "C06": ("C06.c", "C06.d"), "C07": ("C07.e",), "C33": ("C33.d",)},
     # eolterm/sep modifiers not installed -> the memoized and the plain parser disagree on the repetition's extent
     "C19": {"C01": ("C01.b", "C01.c")},
     # base type conversion: with use_regexp_group the converted text is decided by C01.g
